@@ -168,7 +168,13 @@ func (LightClientModule) LatestHeight(ctx sdk.Context, _ string) exported.Height
 
 // TimestampAtHeight returns the current block time retrieved from the application context. The localhost client does not store consensus states and thus
 // cannot provide a timestamp for the provided height.
-func (LightClientModule) TimestampAtHeight(ctx sdk.Context, _ string, _ exported.Height) (uint64, error) {
+//
+// The current block time is only meaningful for heights the chain has reached: for a greater height an error is returned,
+// otherwise a relayer could make a packet time out early by claiming that its timeout height has been reached.
+func (LightClientModule) TimestampAtHeight(ctx sdk.Context, _ string, height exported.Height) (uint64, error) {
+	if selfHeight := clienttypes.GetSelfHeight(ctx); height != nil && selfHeight.LT(height) {
+		return 0, errorsmod.Wrapf(ibcerrors.ErrInvalidHeight, "height %s is greater than the current height %s", height, selfHeight)
+	}
 	return uint64(ctx.BlockTime().UnixNano()), nil
 }
 
